@@ -270,15 +270,20 @@ def alazy_constant(ttl=0):
             if (wrapper.alazy_constant_refresh_time == 0) or (
                 (ttl != 0) and (wrapper.alazy_constant_refresh_time < utime() - ttl)
             ):
+                dirty_count = wrapper.alazy_constant_dirty_count
                 wrapper.alazy_constant_cached_value = yield fn.asynq()
-                wrapper.alazy_constant_refresh_time = utime()
+                # a dirty() issued while the value was being computed must not be lost
+                if dirty_count == wrapper.alazy_constant_dirty_count:
+                    wrapper.alazy_constant_refresh_time = utime()
             return wrapper.alazy_constant_cached_value
 
         def dirty():
             wrapper.alazy_constant_refresh_time = 0
+            wrapper.alazy_constant_dirty_count += 1
 
         wrapper.dirty = dirty
         wrapper.alazy_constant_refresh_time = 0
+        wrapper.alazy_constant_dirty_count = 0
         wrapper.alazy_constant_cached_value = None
         return wrapper
 
